@@ -37,7 +37,7 @@ def main():
     os.makedirs(os.path.join(run.VERIF, "evidence"), exist_ok=True)
     # evidence is only written for runs against the real tree; scratch runs (--repo) leave it alone
     ev_path = os.path.join(run.VERIF, "evidence", f"{a.prop}.json")
-    if os.path.realpath(os.environ.get("VERIF_REPO", "/repo")) != "/repo":
+    if os.path.realpath(os.environ.get("VERIF_REPO", "/repo")) != "/repo" or os.environ.get("VERIF_ONLY"):
         ev_path = os.path.join(run.VERIF, "out", a.prop, "evidence-scratch.json")
         os.makedirs(os.path.dirname(ev_path), exist_ok=True)
     with open(ev_path, "w") as f:
